@@ -833,11 +833,19 @@ pub fn run_history(rng : &mut Rng, run : &mut HistRun, prop : &str, tally : &mut
                         }
                         else
                         {
+                            let model_targets = obs.eval.expected_targets();
                             for (t, (bytes, exec)) in cleaned.iter()
                             {
                                 match obs.after.inode(t)
                                 {
                                     Some(i) if i.data == *bytes && i.exec == *exec => {},
+                                    // the permission is judged only if it was up to date before the clean, i.e. it was what the
+                                    // rule's command produces; a target that carried another permission (set by hand, or left by an
+                                    // earlier restore) was not up to date in that respect and the property promises nothing for it
+                                    Some(i) if i.data == *bytes && model_targets.get(t).map(|m| m.1) != Some(*exec) =>
+                                    {
+                                        if prop == "C10" { tally.counts.inc("permission_not_judged_because_not_up_to_date_before_clean"); }
+                                    },
                                     Some(i) if i.data == *bytes && cleaned.iter().any(|(t2, (b2, x2))| t2 != t && b2 == bytes && *x2 == i.exec) =>
                                         v.push(Violation::new("C10", "exec-bit-taken-from-byte-identical-twin",
                                             format!("after clean+build target {} has exec={} instead of {}: another cleaned target held the same bytes {:?} with the other permission, and one cache entry served both", t, i.exec, exec, crate::verif::util::show_bytes(bytes)))),
